@@ -662,8 +662,17 @@ func (e *Engine) rangeStart(st *State, fr *Frame, x *ssa.Range) Value {
 	panic(fmt.Sprintf("Range over %T", v))
 }
 
+// symOrderHere: map iteration order is made symbolic for range statements in go-slug's own code
+// (not in the injected harness / model files).
 func (e *Engine) symOrderHere(fn *ssa.Function) bool {
-	return fn.Pkg != nil && strings.HasPrefix(fn.Pkg.Pkg.Path(), "github.com/hashicorp/go-slug")
+	if fn.Pkg == nil || !strings.HasPrefix(fn.Pkg.Pkg.Path(), "github.com/hashicorp/go-slug") {
+		return false
+	}
+	f := fn
+	for f.Parent() != nil {
+		f = f.Parent()
+	}
+	return !strings.Contains(e.prog.Fset.Position(f.Pos()).Filename, "zz_verif_")
 }
 
 func (e *Engine) rangeNext(st *State, fr *Frame, x *ssa.Next) Value {
